@@ -233,3 +233,105 @@ def corruptions(r, buf, limit=24):
     out.append(("extend", buf + bytes([r.randrange(256)])))
     r.shuffle(out)
     return out[:limit]
+
+
+# ----------------------------------------------------------------------------- canonical form of value tokens
+def parse_tokens(toks, pos=0):
+    """value tokens -> (tree, next pos); tree: ('b', tag, payload) | ('a', sig, [..]) | ('r', [..]) | ('e', k, v, [(k,v)..]) | ('v', sig, x)"""
+    tag = toks[pos]
+    if tag == "a":
+        sig, n = toks[pos + 1], int(toks[pos + 2])
+        pos += 3
+        items = []
+        for _ in range(n):
+            x, pos = parse_tokens(toks, pos)
+            items.append(x)
+        return ("a", sig, items), pos
+    if tag == "r":
+        n = int(toks[pos + 1])
+        pos += 2
+        items = []
+        for _ in range(n):
+            x, pos = parse_tokens(toks, pos)
+            items.append(x)
+        return ("r", items), pos
+    if tag == "e":
+        k, v, n = toks[pos + 1], toks[pos + 2], int(toks[pos + 3])
+        pos += 4
+        items = []
+        for _ in range(n):
+            a, pos = parse_tokens(toks, pos)
+            b, pos = parse_tokens(toks, pos)
+            items.append((a, b))
+        return ("e", k, v, items), pos
+    if tag == "v":
+        sig = toks[pos + 1]
+        x, pos = parse_tokens(toks, pos + 2)
+        return ("v", sig, x), pos
+    return ("b", tag, toks[pos + 1]), pos + 2
+
+
+def print_tree(t, canonical):
+    k = t[0]
+    if k == "b":
+        return [t[1], t[2]]
+    if k == "a":
+        out = ["a", t[1], str(len(t[2]))]
+        for x in t[2]:
+            out += print_tree(x, canonical)
+        return out
+    if k == "r":
+        out = ["r", str(len(t[1]))]
+        for x in t[1]:
+            out += print_tree(x, canonical)
+        return out
+    if k == "e":
+        entries = [(print_tree(a, canonical), print_tree(b, canonical)) for a, b in t[3]]
+        if canonical:
+            last = {}
+            for a, b in entries:          # a map: the last occurrence of a key wins
+                last[tuple(a)] = b
+            entries = sorted(([list(a), b] for a, b in last.items()), key=lambda e: e[0] + e[1])
+        out = ["e", t[1], t[2], str(len(entries))]
+        for a, b in entries:
+            out += list(a) + b
+        return out
+    return ["v", t[1]] + print_tree(t[2], canonical)
+
+
+def canon(tokstr):
+    """canonical form of a (sequence of) value(s): dict entries deduplicated (last wins) and sorted"""
+    toks = tokstr.split()
+    out = []
+    pos = 0
+    while pos < len(toks):
+        t, pos = parse_tokens(toks, pos)
+        out += print_tree(t, True)
+    return " ".join(out)
+
+
+def map_leaves(t, f):
+    """apply f(tag, payload) -> payload to every base leaf of a parsed token tree"""
+    k = t[0]
+    if k == "b":
+        return ("b", t[1], f(t[1], t[2]))
+    if k == "a":
+        return ("a", t[1], [map_leaves(x, f) for x in t[2]])
+    if k == "r":
+        return ("r", [map_leaves(x, f) for x in t[1]])
+    if k == "e":
+        return ("e", t[1], t[2], [(map_leaves(a, f), map_leaves(b, f)) for a, b in t[3]])
+    return ("v", t[1], map_leaves(t[2], f))
+
+
+def renumber_fds(toks, modulo):
+    """descriptor leaves become wire indices 0,1,2.. (mod modulo) in order"""
+    tree, _ = parse_tokens(list(toks), 0)
+    counter = [0]
+
+    def f(tag, payload):
+        if tag == "h":
+            counter[0] += 1
+            return str((counter[0] - 1) % modulo)
+        return payload
+    return print_tree(map_leaves(tree, f), False)
